@@ -75,4 +75,90 @@ theorem compat_protected (c : CryptoOps) (k : Kind) (kvW kvR : KeyView) (m rnd p
   rw [hcol]
   simp
 
+/-! ### the bytea text decoder on a serialized container (binary result format, column without data type) -/
+
+theorem isControl_of_octDigit (x : UInt8) (h : isOctDigit x = true) : isControl x = false := by
+  unfold isOctDigit at h
+  unfold isControl
+  simp only [Bool.and_eq_true, decide_eq_true_eq] at h
+  simp only [Bool.or_eq_false_iff, decide_eq_false_iff_not, beq_eq_false_iff_ne, ne_eq]
+  omega
+
+/-- `DecodeOctal` fails on every input that contains a control byte (`unicode.IsControl`): the loop never
+skips a byte without looking at it – after a backslash only another backslash or three octal digits are
+accepted. -/
+theorem decodeOctal_none_of_control : ∀ (n : Nat) (d : Bytes), d.length ≤ n → d.any isControl = true → decodeOctal d = none
+  | 0, [], _, h => by simp at h
+  | 0, _ :: _, hl, _ => by simp at hl
+  | n+1, [], _, h => by simp at h
+  | n+1, b :: r, hl, h => by
+    have ih := decodeOctal_none_of_control n
+    simp only [List.length_cons, Nat.add_le_add_iff_right] at hl
+    unfold decodeOctal
+    by_cases hc : isControl b = true
+    · simp [hc]
+    · have hr : r.any isControl = true := by simpa [hc] using h
+      simp only [hc, Bool.false_eq_true, if_false]
+      by_cases hb : b = backslash
+      · simp only [hb, ne_eq, not_true_eq_false, if_false]
+        cases r with
+        | nil => rfl
+        | cons c r1 =>
+          simp only
+          by_cases hcb : c = backslash
+          · have hcc : isControl c = false := by subst hcb; decide
+            have hr1 : r1.any isControl = true := by simpa [hcc] using hr
+            simp only [hcb, if_true]
+            rw [ih r1 (by simp at hl; omega) hr1]; rfl
+          · simp only [hcb, if_false]
+            match r1, hl, hr with
+            | [], _, _ => rfl
+            | [_], _, _ => rfl
+            | d2 :: d3 :: r3, hl, hr =>
+              simp only
+              by_cases hd : (isOctDigit c && isOctDigit d2 && isOctDigit d3) = true
+              · simp only [hd, if_true]
+                simp only [Bool.and_eq_true] at hd
+                have h1 := isControl_of_octDigit c hd.1.1
+                have h2 := isControl_of_octDigit d2 hd.1.2
+                have h3 := isControl_of_octDigit d3 hd.2
+                have hr3 : r3.any isControl = true := by simpa [h1, h2, h3] using hr
+                rw [ih r3 (by simp at hl; omega) hr3]; rfl
+              · simp [hd]
+      · simp only [ne_eq, hb, not_false_eq_true, if_true]
+        rw [ih r hl hr]; rfl
+
+theorem leBytes8_control (n : Nat) (h : n < 2^61) : (leBytes 8 n).any isControl = true := by
+  have : isControl (UInt8.ofNat (n / 256 / 256 / 256 / 256 / 256 / 256 / 256 % 256)) = true := by
+    unfold isControl
+    have hx : n / 256 / 256 / 256 / 256 / 256 / 256 / 256 % 256 < 32 := by omega
+    simp only [UInt8.toNat_ofNat', Bool.or_eq_true, decide_eq_true_eq, beq_iff_eq]
+    left
+    omega
+  simp [leBytes, this]
+
+/-- **the missing lemma of the binary path**: the bytea text decoder fails with `ErrDecodeOctalString` on
+every serialized container shorter than 2^61 bytes – the `%%%` tag is not the `\x` prefix and the top byte
+of the 8-byte little-endian length is a control character. -/
+theorem decodeEscaped_serBytes (e : Bytes) (id : UInt8) (h : 12 + e.length < 2^61) :
+    decodeEscaped (serBytes e id) = .octalErr := by
+  unfold decodeEscaped
+  have ht : (serBytes e id).take 2 ≠ pgHexPrefix := by
+    simp [serBytes, containerTag, pgHexPrefix, Generated.Layout.containerTag, toBytes]
+  rw [if_neg ht]
+  have hany : (serBytes e id).any isControl = true := by
+    have hcm : containerMin = 12 := rfl
+    have := leBytes8_control (containerMin + e.length) (by rw [hcm]; exact h)
+    simp only [serBytes, List.any_append, this, Bool.or_true, Bool.true_or]
+  rw [decodeOctal_none_of_control _ _ (Nat.le_refl _) hany]
+
+
+/-- what `protect` builds for a value that is not already protected is never decodable as bytea text -/
+theorem decodeEscaped_protect (c : CryptoOps) (kv : KeyView) (k : Kind) (m rnd p : Bytes)
+    (hnm : matchKind k m = false) (hnr : registryMatch m = false)
+    (hp : protect c kv k m rnd = .ok p) (hl : p.length < 2^61) : decodeEscaped p = .octalErr := by
+  obtain ⟨e, _, _, rfl⟩ := c01_protect_ok hp hnm hnr
+  rw [c01_serBytes_length] at hl
+  exact decodeEscaped_serBytes e k.id hl
+
 end AcraModel.Proxy
